@@ -322,7 +322,7 @@ impl<'a> DocGen<'a> {
         let fl = self.g.fields.get(ty).cloned().unwrap_or_default();
         for (k, it) in items.iter().enumerate() {
             self.cur_site = format!("{ty}.{}", fl.get(k).cloned().unwrap_or_default());
-            if self.opts.param_comments && self.rng.chance(1, 25) {
+            if self.opts.param_comments && self.rng.chance(1, 8) {
                 self.push(format!("/* p{} */", self.counter), Role::Comment, depth + 1);
             }
             if k == 0 && pos == 1 && self.ascending_positions {
@@ -484,6 +484,10 @@ pub fn render(toks: &[GTok], rng: &mut Rng, layout: Layout, crlf: bool) -> Strin
         }
         if matches!(prev.map(|p| &p.role), Some(Role::Begin) | Some(Role::End)) && layout != Layout::Wild {
             brk = false;
+        }
+        if layout == Layout::Canonical && t.role == Role::Param && matches!(prev.map(|p| &p.role), Some(Role::Comment)) && rng.chance(1, 2) {
+            // a parameter behind a comment often starts a new line
+            brk = true;
         }
         if line_comment_open {
             brk = true;
